@@ -134,7 +134,7 @@ impl BoxedUint {
             res[nlimbs - i - 1] = Limb(Word::from_be_bytes(buf));
             i += 1;
         }
-        CtOption::new(Self { limbs: res.into() }, Choice::from((err == 0) as u8))
+        CtOption::new(Self::from(res), Choice::from((err == 0) as u8))
     }
 
     /// Create a new [`BoxedUint`] from a big-endian string in a given base.
